@@ -21,12 +21,13 @@
     }
 
     #[derive(Clone)]
-    struct Backend { body: Vec<u8>, with_length: bool, initial_window: Option<u32>, connection_bonus: u32, served: Arc<AtomicUsize>, uploaded: Arc<AtomicUsize>, events: Arc<Mutex<Vec<String>>> }
+    struct Backend { body: Vec<u8>, with_length: bool, initial_window: Option<u32>, connection_bonus: u32, connection_grant: u32, max_concurrent: Option<u32>, delay_ms: u64, connections: Arc<AtomicUsize>, served: Arc<AtomicUsize>, uploaded: Arc<AtomicUsize>, events: Arc<Mutex<Vec<String>>> }
 
     /// what sozu lets this backend send: the connection window, the stream windows, and the answers still being sent
     struct SendSide { initial: i64, connection: i64, streams: HashMap<u32, i64>, pending: Vec<(u32, usize)> }
 
     fn respond(conn: &mut TcpStream, sid: u32, b: &Backend, tx: &mut SendSide) {
+        if b.delay_ms > 0 { thread::sleep(Duration::from_millis(b.delay_ms)); }
         let mut hb = vec![0x88u8];   // :status 200 (static table)
         if b.with_length { lit(&mut hb, b"content-length", b.body.len().to_string().as_bytes()); }
         let _ = conn.write_all(&frame(0x1, 0x4, sid, &hb));
@@ -66,6 +67,8 @@
         if conn.read_exact(&mut preface).is_err() { return; }
         let mut settings = Vec::new();
         if let Some(w) = b.initial_window { settings.extend_from_slice(&[0, 4]); settings.extend_from_slice(&w.to_be_bytes()); }
+        if let Some(m) = b.max_concurrent { settings.extend_from_slice(&[0, 3]); settings.extend_from_slice(&m.to_be_bytes()); }
+        b.connections.fetch_add(1, Ordering::SeqCst);
         let mut hello = frame(0x4, 0, 0, &settings);
         if b.connection_bonus > 0 { hello.extend_from_slice(&frame(0x8, 0, 0, &b.connection_bonus.to_be_bytes())); }
         let _ = conn.write_all(&hello);
@@ -119,7 +122,7 @@
                     // a window is opened again only once it is exhausted: the account above stays exact
                     let mut out = Vec::new();
                     if flags & 0x1 == 0 && *r >= *g { out.extend_from_slice(&frame(0x8, 0, sid, &(w as u32).to_be_bytes())); *g += w; }
-                    if conn_received >= conn_granted { out.extend_from_slice(&frame(0x8, 0, 0, &65_535u32.to_be_bytes())); conn_granted += 65_535; }
+                    if conn_received >= conn_granted { out.extend_from_slice(&frame(0x8, 0, 0, &b.connection_grant.to_be_bytes())); conn_granted += b.connection_grant as u64; }
                     if !out.is_empty() { let _ = conn.write_all(&out); }
                     if flags & 0x1 != 0 { respond(&mut conn, sid, &b, &mut tx); }
                 }
@@ -188,7 +191,7 @@
             let (mut worker, backends) = setup_test("VERIF-H1H2", config, listeners, state, front_address, 1, false);
             worker.send_proxy_request_type(RequestType::AddCluster(Cluster { http2: Some(true), ..Worker::default_cluster("cluster_0") }));
             worker.read_to_last();
-            let b = Backend { body: (0..body_len).map(|i| b'a' + (i % 26) as u8).collect(), with_length, initial_window, connection_bonus: 0,
+            let b = Backend { body: (0..body_len).map(|i| b'a' + (i % 26) as u8).collect(), with_length, initial_window, connection_bonus: 0, connection_grant: 65_535, max_concurrent: None, delay_ms: 0, connections: Arc::new(AtomicUsize::new(0)),
                               served: Arc::new(AtomicUsize::new(0)), uploaded: Arc::new(AtomicUsize::new(0)), events: Arc::new(Mutex::new(Vec::new())) };
             let (stop, acceptor) = start_backend(backends[0], &b);
             let name = format!("HTTP/1.1 client: {per_connection} {} requests one after the other on one keep-alive connection; the h2c backend answers each with 200, {} and a {body_len}-octet body{}",
@@ -226,7 +229,7 @@
             let back_address = create_local_address();
             worker.send_proxy_request_type(RequestType::AddBackend(Worker::default_backend("cluster_0", "cluster_0-0", back_address, None)));
             worker.read_to_last();
-            let b = Backend { body: b"hello".to_vec(), with_length: true, initial_window: Some(10_000), connection_bonus: 1 << 20,
+            let b = Backend { body: b"hello".to_vec(), with_length: true, initial_window: Some(10_000), connection_bonus: 1 << 20, connection_grant: 65_535, max_concurrent: None, delay_ms: 0, connections: Arc::new(AtomicUsize::new(0)),
                               served: Arc::new(AtomicUsize::new(0)), uploaded: Arc::new(AtomicUsize::new(0)), events: Arc::new(Mutex::new(Vec::new())) };
             let (stop, acceptor) = start_backend(back_address, &b);
             let post_len = 60_000usize;
@@ -268,7 +271,107 @@
             worker.soft_stop();
             let _ = worker.wait_for_server_stop();
         }
+        // ---- HTTP/2 front, a backend that allows ONE concurrent stream per connection and answers slowly: the second of
+        // two requests sent together needs a second backend connection — it must not be refused (503) while the backend is usable
+        if mode_keepalive {
+            use crate::tests::h2_utils::{h2_handshake_with_initial_window, raw_h2_connection, setup_h2_listener_only, parse_h2_frames, H2Frame};
+            let (mut worker, front_port, _front) = setup_h2_listener_only("VERIF-H2H2M");
+            worker.send_proxy_request_type(RequestType::AddCluster(Cluster { http2: Some(true), ..Worker::default_cluster("cluster_0") }));
+            let back_address = create_local_address();
+            worker.send_proxy_request_type(RequestType::AddBackend(Worker::default_backend("cluster_0", "cluster_0-0", back_address, None)));
+            worker.read_to_last();
+            let b = Backend { body: b"hello".to_vec(), with_length: true, initial_window: None, connection_bonus: 0, connection_grant: 65_535, max_concurrent: Some(1), delay_ms: 700, connections: Arc::new(AtomicUsize::new(0)),
+                              served: Arc::new(AtomicUsize::new(0)), uploaded: Arc::new(AtomicUsize::new(0)), events: Arc::new(Mutex::new(Vec::new())) };
+            let (stop, acceptor) = start_backend(back_address, &b);
+            let name = "HTTP/2 client: a warm-up GET on stream 1, then two GETs written together on streams 3 and 5; the h2c backend advertises SETTINGS_MAX_CONCURRENT_STREAMS 1 and answers each request after 0.7 s".to_string();
+            let mut tls = raw_h2_connection(std::net::SocketAddr::from(([127, 0, 0, 1], front_port)));
+            h2_handshake_with_initial_window(&mut tls, 1 << 20);
+            let get = |path: &str| { let mut h = Vec::new(); lit(&mut h, b":method", b"GET"); lit(&mut h, b":scheme", b"https"); lit(&mut h, b":path", path.as_bytes()); lit(&mut h, b":authority", b"localhost"); h };
+            let _ = tls.write_all(&H2Frame::headers(1, get("/warm"), true, true).encode());
+            let _ = tls.flush();
+            let mut seen = crate::tests::h2_utils::read_all_available(&mut tls, Duration::from_millis(1800));
+            let mut wire = H2Frame::headers(3, get("/a"), true, true).encode();
+            wire.extend_from_slice(&H2Frame::headers(5, get("/b"), true, true).encode());
+            let _ = tls.write_all(&wire);
+            let _ = tls.flush();
+            n += 2;
+            let deadline = Instant::now() + Duration::from_secs(10);
+            let mut status: HashMap<u32, String> = HashMap::new();
+            let mut ended: Vec<u32> = Vec::new();
+            while Instant::now() < deadline && ended.len() < 2 {
+                seen.extend_from_slice(&crate::tests::h2_utils::read_all_available(&mut tls, Duration::from_millis(200)));
+                ended.clear();
+                for (t, fl, s, p) in parse_h2_frames(&seen) {
+                    if (s == 3 || s == 5) && t == 0x1 && !status.contains_key(&s) { status.insert(s, if p.first() == Some(&0x88) || p.windows(3).any(|w| w == b"200") { "200".to_string() } else { format!("not 200 (header block starts {:02x?})", &p[..p.len().min(6)]) }); }
+                    if (s == 3 || s == 5) && (t == 0x0 || t == 0x1) && fl & 0x1 != 0 && !ended.contains(&s) { ended.push(s); }
+                    if (s == 3 || s == 5) && t == 0x3 && !ended.contains(&s) { status.insert(s, "RST_STREAM".to_string()); ended.push(s); }
+                }
+            }
+            println!("N-h1h2 {name:?}: status {status:?}, ended {ended:?}, backend connections {}, served {}", b.connections.load(Ordering::SeqCst), b.served.load(Ordering::SeqCst));
+            for sid in [3u32, 5] {
+                if ended.contains(&sid) && status.get(&sid).map(|s| s == "200").unwrap_or(false) { answered += 1; }
+                else { fails.push((name.clone(), format!("the request on stream {sid} is answered {:?} (complete: {}) although the backend is up and answers every request it receives with 200 (backend connections: {}, requests it served: {})", status.get(&sid), ended.contains(&sid), b.connections.load(Ordering::SeqCst), b.served.load(Ordering::SeqCst)))); break; }
+            }
+            drop(tls);
+            stop.store(true, Ordering::SeqCst);
+            let _ = acceptor.join();
+            worker.soft_stop();
+            let _ = worker.wait_for_server_stop();
+        }
+        // ---- HTTP/2 front, CONCURRENT uploads: the backend's connection window (65 535, opened again only when exhausted)
+        // is the binding limit while three streams have DATA ready at the same time
+        if mode_flow {
+            use crate::tests::h2_utils::{h2_handshake_with_initial_window, raw_h2_connection, setup_h2_listener_only, parse_h2_frames, H2Frame};
+            let (mut worker, front_port, _front) = setup_h2_listener_only("VERIF-H2H2C");
+            worker.send_proxy_request_type(RequestType::AddCluster(Cluster { http2: Some(true), ..Worker::default_cluster("cluster_0") }));
+            let back_address = create_local_address();
+            worker.send_proxy_request_type(RequestType::AddBackend(Worker::default_backend("cluster_0", "cluster_0-0", back_address, None)));
+            worker.read_to_last();
+            let b = Backend { body: b"hello".to_vec(), with_length: true, initial_window: Some(1 << 20), connection_bonus: 0, connection_grant: 3_000, max_concurrent: None, delay_ms: 0, connections: Arc::new(AtomicUsize::new(0)),
+                              served: Arc::new(AtomicUsize::new(0)), uploaded: Arc::new(AtomicUsize::new(0)), events: Arc::new(Mutex::new(Vec::new())) };
+            let (stop, acceptor) = start_backend(back_address, &b);
+            let post_len = 40_000usize;
+            let streams: Vec<u32> = (0..3).map(|k| 3 + 2 * k as u32).collect();
+            let name = format!("HTTP/2 client: a warm-up GET on stream 1, then 3 POST requests (content-length: {post_len}) written together on streams 3, 5, 7; the h2c backend advertises SETTINGS_INITIAL_WINDOW_SIZE 1048576 per stream and keeps the default connection window of 65535, opened again by 3000 octets only when it is exhausted");
+            let mut tls = raw_h2_connection(std::net::SocketAddr::from(([127, 0, 0, 1], front_port)));
+            h2_handshake_with_initial_window(&mut tls, 1 << 20);
+            // warm-up: the backend connection exists and its SETTINGS are acknowledged before the uploads start
+            let mut h0 = Vec::new();
+            lit(&mut h0, b":method", b"GET"); lit(&mut h0, b":scheme", b"https"); lit(&mut h0, b":path", b"/warm"); lit(&mut h0, b":authority", b"localhost");
+            let _ = tls.write_all(&H2Frame::headers(1, h0, true, true).encode());
+            let _ = tls.flush();
+            let mut seen = crate::tests::h2_utils::read_all_available(&mut tls, Duration::from_millis(1500));
+            let mut wire = Vec::new();
+            for &sid in &streams {
+                let mut hp = Vec::new();
+                lit(&mut hp, b":method", b"POST"); lit(&mut hp, b":scheme", b"https"); lit(&mut hp, b":path", format!("/up{sid}").as_bytes()); lit(&mut hp, b":authority", b"localhost");
+                lit(&mut hp, b"content-length", post_len.to_string().as_bytes());
+                wire.extend_from_slice(&H2Frame::headers(sid, hp, true, false).encode());
+            }
+            let upload: Vec<u8> = (0..post_len).map(|i| b'A' + (i % 26) as u8).collect();
+            let chunks: Vec<&[u8]> = upload.chunks(10_000).collect();
+            for (i, c) in chunks.iter().enumerate() { for &sid in &streams { wire.extend_from_slice(&H2Frame::data(sid, c.to_vec(), i + 1 == chunks.len()).encode()); } }
+            let _ = tls.write_all(&wire);
+            let _ = tls.flush();
+            n += streams.len() as u64;
+            let deadline = Instant::now() + Duration::from_secs(10);
+            let mut done: Vec<u32> = Vec::new();
+            while Instant::now() < deadline && done.len() < streams.len() {
+                seen.extend_from_slice(&crate::tests::h2_utils::read_all_available(&mut tls, Duration::from_millis(200)));
+                done.clear();
+                for (t, fl, s, _p) in parse_h2_frames(&seen) { if streams.contains(&s) && t == 0x0 && fl & 0x1 != 0 && !done.contains(&s) { done.push(s); } }
+            }
+            println!("N-h1h2 {name:?}: answered streams {done:?}, backend received {} octets, events {:?}", b.uploaded.load(Ordering::SeqCst), b.events.lock().unwrap());
+            answered += done.len() as u64;
+            if let Some(v) = b.events.lock().unwrap().iter().find(|e| e.starts_with("FLOW-CONTROL")) { fails.push((name.clone(), v.clone())); }
+            else if done.len() < streams.len() { fails.push((name.clone(), format!("only the requests on streams {done:?} of {streams:?} get a complete answer within 10 s (octets uploaded to the backend: {} of {}; backend saw: {:?})", b.uploaded.load(Ordering::SeqCst), streams.len() * post_len, b.events.lock().unwrap()))); }
+            drop(tls);
+            stop.store(true, Ordering::SeqCst);
+            let _ = acceptor.join();
+            worker.soft_stop();
+            let _ = worker.wait_for_server_stop();
+        }
         let fl: Vec<String> = fails.iter().map(|(i, o)| format!("{{\"input\": {:?}, \"observed\": {:?}}}", i, o)).collect();
-        let bound = if mode_flow { format!("5 scenarios x {per_connection} requests through a real worker to an h2c backend that accounts every flow-controlled octet it receives and never exceeds the windows sozu advertises: HTTP/1.1 keep-alive clients uploading 5000 / 100000 octets against a backend stream window of 1000 / 70000 and downloading 1000000 / 300000 octets (sozu must replenish its windows), and an HTTP/2 client with a 1 MiB stream window uploading 60000 octets per stream against a backend stream window of 10000") } else { format!("4 scenarios x {per_connection} requests one after the other on one keep-alive HTTP/1.1 connection through a real worker to an h2c backend (GET / POST, responses with / without content-length, 5 and 40000 octets)") };
+        let bound = if mode_flow { format!("6 scenarios (5 x {per_connection} requests one after the other, 1 x 3 concurrent uploads) through a real worker to an h2c backend that accounts every flow-controlled octet it receives and never exceeds the windows sozu advertises: HTTP/1.1 keep-alive clients uploading 5000 / 100000 octets against a backend stream window of 1000 / 70000 and downloading 1000000 / 300000 octets (sozu must replenish its windows), and an HTTP/2 client with a 1 MiB stream window uploading 60000 octets per stream against a backend stream window of 10000, and three concurrent 40000-octet uploads against the backend's connection window of 65535") } else { format!("4 scenarios x {per_connection} requests one after the other on one keep-alive HTTP/1.1 connection through a real worker to an h2c backend (GET / POST, responses with / without content-length, 5 and 40000 octets), and two concurrent HTTP/2 requests to an h2c backend that allows one stream per connection") };
         println!("{{\"bound\": \"{bound}\", \"states\": {n}, \"pairs\": {n}, \"nontrivial_pairs\": {answered}, \"failures\": [{}]}}", fl.join(", "));
     }
